@@ -1557,16 +1557,17 @@ class Engine:
 
         mkey = (name,) + tuple(_ident(v) for v in vals)
         if mkey in self.call_memo:
-            return self.call_memo[mkey]
-        tmp = State()
-        res = self.fresh_result(K, tmp)
-        self.call_memo[mkey] = res
-        if K.ensures:
-            post = K.ensures(c, *vals, res)
-            facts = tmp.pc + [B(post)] + c.side
-            c.side = []
+            res, facts = self.call_memo[mkey]
         else:
-            facts = tmp.pc
+            tmp = State()
+            res = self.fresh_result(K, tmp)
+            if K.ensures:
+                post = K.ensures(c, *vals, res)
+                facts = tmp.pc + [B(post)] + c.side
+                c.side = []
+            else:
+                facts = tmp.pc
+            self.call_memo[mkey] = (res, list(facts))
         if st is not None:
             for f in facts:
                 st.assume(f)
